@@ -70,6 +70,21 @@ def near_misses(rng, prog, n_e, n_p, n_c):
         p = copy.deepcopy(prog)
         del p[i]
         out.append(("drop-op", p, False))
+        # a gate replaced by its closest relative (Phase <-> PhaseDagger, SigmaX <-> SigmaY, plain or inside a wrapper)
+        REL = {"Phase": "PhaseDagger", "PhaseDagger": "Phase", "SigmaX": "SigmaY", "SigmaY": "SigmaX", "SigmaZ": "Identity"}
+        p = copy.deepcopy(prog)
+        done = False
+        for s_ in p:
+            if s_["k"] in REL and not done:
+                s_["k"] = REL[s_["k"]]
+                done = True
+            elif s_["k"] == "OneQubitGateWrapper" and not done and any(g in REL for g in s_["w"]):
+                j = next(k for k, g in enumerate(s_["w"]) if g in REL)
+                s_["w"] = list(s_["w"])
+                s_["w"][j] = REL[s_["w"][j]]
+                done = True
+        if done:
+            out.append(("related-gate", p, False))
     # rename registers of the same type (a cyclic shift of the emitters / photons)
     def ren(r):
         t, j = r
